@@ -17,7 +17,10 @@ if full:
 jobs = 4
 if '--jobs' in args:
     k = args.index('--jobs'); jobs = int(args[k + 1]); del args[k:k + 2]
-ids = args or sorted(os.listdir(os.path.join(HERE, 'harmless')))
+only_props = None
+if '--props' in args:
+    k = args.index('--props'); only_props = set(args[k + 1].split(',')); del args[k:k + 2]
+ids = args or sorted(d for d in os.listdir(os.path.join(HERE, 'harmless')) if os.path.isdir(os.path.join(HERE, 'harmless', d)))
 
 cfg = tomllib.load(open(os.path.join(HERE, 'contracts/properties.toml'), 'rb'))
 units = {}
@@ -68,6 +71,8 @@ def one(hid):
     d = os.path.join(HERE, 'harmless', hid)
     patch = os.path.join(d, 'patch.diff')
     touched, props = props_for(patch)
+    if only_props is not None:
+        props = [p for p in props if p in only_props]
     scratch = tempfile.mkdtemp(prefix='harmless-', dir='/var/tmp')
     rows = []
     try:
